@@ -67,6 +67,7 @@ type fnInfo struct {
 	Name     string
 	GoParams []string // receiver first, then parameters, in Go order
 	HasRecv  bool
+	HasArr   bool // stage4: array parameters / results (not callable from translated code yet)
 	Params   []paramInfo
 	Extended bool // has a receiver-derived or non-scalar parameter
 }
@@ -663,7 +664,7 @@ func (t *tr) resCoqType(at ast.Node) string {
 	if t.truncStmt != nil {
 		return "res Z"
 	}
-	if len(t.resTy) == 0 {
+	if len(t.resTy) == 0 && !t.hasOuts() {
 		return "res unit"
 	}
 	parts := []string{}
@@ -673,6 +674,9 @@ func (t *tr) resCoqType(at ast.Node) string {
 			continue
 		}
 		parts = append(parts, t.coqType(ty, at))
+	}
+	for range t.outCellNames() {
+		parts = append(parts, "Z") // stage4: cells of the modified arrays
 	}
 	if len(parts) == 1 {
 		return "res " + parts[0]
